@@ -152,17 +152,36 @@ pub fn gen_doc(src: &mut Src, cfg: &GenCfg) -> J {
         };
         let mut j = gen_scalar(src);
         for i in 0..depth {
-            j = if src.bool() {
+            // one choice per level (deep documents must not eat the whole choice sequence): its bits
+            // decide the kind of the level and its siblings — scalars and small containers, so that
+            // several containers meet at one deep level
+            let c = src.next();
+            let bit = |k: u32| (c >> (31 - k)) & 1 == 1;
+            let sib = |k: u32| -> J {
+                match (c >> (20 - 2 * k)) & 3 {
+                    0 => J::Int(((c >> 3) & 7) as i64),
+                    1 => J::Arr(vec![J::Int(((c >> 6) & 7) as i64)]),
+                    2 => J::Obj(vec![("a".to_string(), J::Int((c & 7) as i64))]),
+                    _ => J::Str("s".to_string()),
+                }
+            };
+            j = if bit(0) {
                 let mut items = vec![j];
-                if src.chance(1, 3) {
-                    items.insert(0, gen_scalar(src));
+                if bit(1) && bit(2) {
+                    items.insert(0, sib(0));
+                }
+                if bit(3) && bit(4) {
+                    items.push(sib(1));
                 }
                 J::Arr(items)
             } else {
-                let mut m = vec![(gen_key(src, cfg), j)];
-                if src.chance(1, 3) {
-                    let k = format!("s{}", i);
-                    m.push((k, gen_scalar(src)));
+                let key = ["a", "b", "c", "d"][((c >> 24) & 3) as usize].to_string();
+                let mut m = vec![(key.clone(), j)];
+                if bit(1) && bit(2) {
+                    m.push((format!("s{}", i), sib(0)));
+                }
+                if bit(3) && bit(4) && key != "A" {
+                    m.insert(0, ("A".to_string(), sib(1)));
                 }
                 J::Obj(m)
             };
@@ -255,6 +274,12 @@ fn strict() -> Quirks {
 
 fn gen_name<'a>(src: &mut Src, focus: Option<&Node<'a>>, cfg: &GenCfg) -> String {
     if let Some(n) = focus {
+        // a name that looks like an index, applied to an array (must select nothing)
+        if let J::Arr(a) = n.v {
+            if src.chance(1, 2) {
+                return (src.below(a.len() + 1) as i64 - if src.chance(1, 4) { 1 } else { 0 }).to_string();
+            }
+        }
         if let J::Obj(m) = n.v {
             if !m.is_empty() && src.chance(4, 5) {
                 return m[src.below(m.len())].0.clone();
@@ -265,6 +290,13 @@ fn gen_name<'a>(src: &mut Src, focus: Option<&Node<'a>>, cfg: &GenCfg) -> String
 }
 
 fn gen_index<'a>(src: &mut Src, focus: Option<&Node<'a>>) -> i64 {
+    // an index that equals a numeric-looking member name of an object (must select nothing)
+    if let Some(J::Obj(m)) = focus.map(|n| n.v) {
+        let nums: Vec<i64> = m.iter().filter_map(|(k, _)| k.parse::<i64>().ok()).collect();
+        if !nums.is_empty() && src.chance(2, 3) {
+            return nums[src.below(nums.len())];
+        }
+    }
     let len = match focus.map(|n| n.v) {
         Some(J::Arr(a)) => a.len() as i64,
         _ => 1,
